@@ -166,6 +166,12 @@ func collectFired(tx types.Transaction) []Fired {
 		f := Fired{ID: mr.Rule().ID(), Msg: mr.Message(), LogD: mr.Data()}
 		for _, md := range mr.MatchedDatas() {
 			f.Data = append(f.Data, Triple{md.Variable().Name(), md.Key(), md.Value()})
+			if f.Msg == "" {
+				f.Msg = md.Message()
+			}
+			if f.LogD == "" {
+				f.LogD = md.Data()
+			}
 		}
 		sortTriples(f.Data)
 		out = append(out, f)
